@@ -381,12 +381,12 @@ def _handle_fn_body(body: list[ast.stmt], ctx: Context) -> sympy.Expr | None:
 
                 if isinstance(node.value, ast.Tuple):
                     # Direct unpacking like c, d = a, b
-                    value_elements = node.value.elts
-                    for target, value_expr in zip(
-                        target_elements, value_elements, strict=True
-                    ):
+                    # The whole right-hand side is evaluated before any target is bound
+                    value_exprs = [
+                        _handle_expr(value_expr, ctx) for value_expr in node.value.elts
+                    ]
+                    for target, expr in zip(target_elements, value_exprs, strict=True):
                         if isinstance(target, ast.Name):
-                            expr = _handle_expr(value_expr, ctx)
                             if expr is None:
                                 return None
                             ctx.symbols[target.id] = expr
